@@ -3,6 +3,7 @@
    closed form of the whole history; dump lists them newest first; view(k*dt) returns the k-th.
    (Observations with one element; the machine is element-wise, see zipfold.) *)
 From Coq Require Import List ZArith Reals Bool Lra Lia.
+From Flocq Require Import Core.Raux.
 From Inferno Require Import Base.Num Base.NumR Gen.Infra Gen.Trace Gen.Interpolation C01.Ring C01.RingProofs
   C07.Reducer C07.ReducerProofs C07.TraceProofs C07.ViewProofs.
 Import ListNotations.
@@ -118,10 +119,10 @@ Variables (dt dur : R) (incl inpl : bool).
 
 (* what a view k steps back / the k-th dump entry of a reducer that observed l must be, given the closed form
    [cf] of its class: the closed form of the history without its last k observations *)
-Definition record_spec (cf : list R -> R) (fillv : R) (nrec : nat) (l : list R) : list (list R) :=
+Definition record_spec {A Obs} (cf : list Obs -> A) (fillv : A) (nrec : nat) (l : list Obs) : list (list A) :=
   firstn nrec (map (fun k => [cf (firstn (length l - k) l)]) (seq 0 (length l)) ++ repeat [fillv] nrec).
 
-Lemma record_of_closed (K : @rclass RN R R) (cf : list R -> R) (l : list R) :
+Lemma record_of_closed {A Obs} (K : @rclass RN A Obs) (cf : list Obs -> A) (l : list Obs) :
   kcounts K = false ->
   (forall m, m <> [] ->
      fold_left (fun s o => Some (kfold K dt (match kdecay K with Some f => f dt | None => 0 end) 0%Z o s)) m None
@@ -137,9 +138,9 @@ Proof.
   destruct (fresh_run_record RN K dt dur incl inpl l Hne) as (Hw & Hi & HN & Hs & Hcfg & Hok & Hh).
   destruct (fresh_facts RN K dt dur incl inpl) as (_ & _ & _ & _ & _ & _ & Hdt & Hdec).
   split; [exact Hw|]. split; [exact Hi|]. split; [exact HN|]. split; [exact Hs|].
-  split; [destruct Hcfg as (c1 & _); rewrite c1; exact Hdt|]. split; [exact Hok|].
+  split; [destruct Hcfg as (c1 & _); exact (eq_trans c1 Hdt)|]. split; [exact Hok|].
   rewrite Hh. unfold record_spec. f_equal. f_equal. apply map_ext_in. intros k Hin. apply in_seq in Hin.
-  rewrite Hdt, Hdec, elem_fold_nocount by exact Hk. rewrite Hcf; [reflexivity|].
+  rewrite Hdt, Hdec, elem_fold_nocount by exact Hk. rn_simpl. rewrite Hcf; [reflexivity|].
   intros E. apply (f_equal (@length _)) in E. rewrite firstn_length in E. cbn [length] in E. lia.
 Qed.
 
@@ -157,7 +158,7 @@ Proof.
   intros Hne. apply (record_of_closed (cls_cumulative RN tau a target tol)); [reflexivity| |exact Hne].
   intros m Hm. cbn [kdecay cls_cumulative kfold].
   pose proof (cumulative_closed_fixed_dt tau a target tol dt m) as H. rewrite run_state_fixed_dt in H.
-  unfold cumulative_step in H. rewrite H. destruct m; [congruence|reflexivity].
+  unfold cumulative_step in H. destruct m; [congruence|exact H].
 Qed.
 
 (* ---- nearest trace *)
@@ -177,7 +178,7 @@ Proof.
   intros Hne. apply (record_of_closed (cls_nearest RN tau a target tol)); [reflexivity| |exact Hne].
   intros m Hm. cbn [kdecay cls_nearest kfold].
   pose proof (nearest_closed tau a target tol (map (fun o => (dt, o)) m)) as H. rewrite run_state_fixed_dt in H.
-  unfold nearest_step in H. rewrite H. destruct m; [congruence|reflexivity].
+  unfold nearest_step in H. destruct m; [congruence|exact H].
 Qed.
 
 (* ---- scaled traces *)
@@ -195,7 +196,7 @@ Proof.
   intros Hne. apply (record_of_closed (cls_scaled_cumulative RN tau a scale crit)); [reflexivity| |exact Hne].
   intros m Hm. cbn [kdecay cls_scaled_cumulative kfold].
   pose proof (cumulative_scaled_closed tau a scale crit (map (fun o => (dt, o)) m)) as H. rewrite run_state_fixed_dt in H.
-  unfold cumulative_scaled_step in H. rewrite H. destruct m; [congruence|reflexivity].
+  unfold cumulative_scaled_step in H. destruct m; [congruence|exact H].
 Qed.
 Definition scaled_nearest_cf (tau a scale : R) (crit : R -> bool) (l : list R) : R :=
   match last_event crit (map (fun o => (dt, o)) l) with
@@ -213,7 +214,7 @@ Proof.
   intros Hne. apply (record_of_closed (cls_scaled_nearest RN tau a scale crit)); [reflexivity| |exact Hne].
   intros m Hm. cbn [kdecay cls_scaled_nearest kfold].
   pose proof (nearest_scaled_closed tau a scale crit (map (fun o => (dt, o)) m)) as H. rewrite run_state_fixed_dt in H.
-  unfold nearest_scaled_step in H. rewrite H. destruct m; [congruence|reflexivity].
+  unfold nearest_scaled_step in H. destruct m; [congruence|exact H].
 Qed.
 
 (* ---- pass-through and exponential moving average *)
@@ -228,7 +229,7 @@ Proof.
   intros Hne. apply (record_of_closed (cls_pass RN)); [reflexivity| |exact Hne].
   intros m Hm. cbn [kdecay cls_pass].
   transitivity (match rev m with [] => None | x :: _ => Some x end).
-  - rewrite <- (passthrough_id m). apply fold_left_ext. intros s x. reflexivity.
+  - exact (passthrough_id m).
   - destruct m as [|x m _] using rev_ind; [congruence|]. rewrite rev_app_distr, last_last. reflexivity.
 Qed.
 Theorem ema_reducer_record alpha (l : list R) : l <> [] ->
@@ -241,6 +242,179 @@ Theorem ema_reducer_record alpha (l : list R) : l <> [] ->
 Proof.
   intros Hne. apply (record_of_closed (cls_ema RN alpha)); [reflexivity| |exact Hne].
   intros m Hm. cbn [kdecay cls_ema kfold].
-  pose proof (ema_closed_form alpha m) as H. unfold ema_run in H. rewrite H. destruct m; [congruence|reflexivity].
+  transitivity (ema_run alpha m); [reflexivity|]. rewrite ema_closed_form. destruct m; [congruence|reflexivity].
+Qed.
+
+(* ---- conditional traces: the observation is a pair (value, condition) *)
+Definition cond_cumulative_cf (tau a scale : R) (l : list (R * bool)) : R :=
+  sum_list (map (fun p : R * (R * bool) => (if snd (snd p) then scale * fst (snd p) + a else 0) * exp (- fst p / tau))
+                (elapsed (map (fun o => (dt, o)) l))).
+Theorem conditional_cumulative_reducer_record tau a scale (l : list (R * bool)) : l <> [] ->
+  let K := cls_cond_cumulative RN tau a scale in
+  let r0 := fresh RN K dt dur incl inpl in
+  let r := final K r0 (fwd_ops [] (map single l)) in
+  rwf r /\ rinit r = false /\ N (rrec r) = N (rrec r0) /\ stored_shape r = Some [] /\ rdt r = dt /\
+  all_ok (outputs K r0 (fwd_ops [] (map single l))) /\
+  rhist r = record_spec (cond_cumulative_cf tau a scale) 0 (N (rrec r0)) l.
+Proof.
+  intros Hne. apply (record_of_closed (cls_cond_cumulative RN tau a scale)); [reflexivity| |exact Hne].
+  intros m Hm. cbn [kdecay cls_cond_cumulative kfold].
+  pose proof (cumulative_conditional_closed tau a scale (map (fun o => (dt, o)) m)) as H. rewrite run_state_fixed_dt in H.
+  unfold cumulative_cond_step in H. destruct m; [congruence|exact H].
+Qed.
+Definition cond_nearest_cf (tau a scale : R) (l : list (R * bool)) : R :=
+  match last_event (@snd R bool) (map (fun o => (dt, o)) l) with
+  | Some (age, hc) => (scale * fst hc + a) * exp (- age / tau)
+  | None => 0
+  end.
+Theorem conditional_nearest_reducer_record tau a scale (l : list (R * bool)) : l <> [] ->
+  let K := cls_cond_nearest RN tau a scale in
+  let r0 := fresh RN K dt dur incl inpl in
+  let r := final K r0 (fwd_ops [] (map single l)) in
+  rwf r /\ rinit r = false /\ N (rrec r) = N (rrec r0) /\ stored_shape r = Some [] /\ rdt r = dt /\
+  all_ok (outputs K r0 (fwd_ops [] (map single l))) /\
+  rhist r = record_spec (cond_nearest_cf tau a scale) 0 (N (rrec r0)) l.
+Proof.
+  intros Hne. apply (record_of_closed (cls_cond_nearest RN tau a scale)); [reflexivity| |exact Hne].
+  intros m Hm. cbn [kdecay cls_cond_nearest kfold].
+  pose proof (nearest_conditional_closed tau a scale (map (fun o => (dt, o)) m)) as H. rewrite run_state_fixed_dt in H.
+  unfold nearest_cond_step in H. destruct m; [congruence|exact H].
+Qed.
+
+(* ---- event reducer: time since the last event (None = the non-finite initial value inf / nan) *)
+Lemma fold_left_fixed_dt {S Obs} (F : R -> Obs -> S -> S) (l : list Obs) s0 :
+  fold_left (fun s p => F (fst p) (snd p) s) (map (fun o => (dt, o)) l) s0 = fold_left (fun s o => F dt o s) l s0.
+Proof. revert s0. induction l as [|o tl IH]; intros s0; cbn [map fold_left fst snd]; [reflexivity|]. apply IH. Qed.
+Theorem event_reducer_record crit i (l : list R) : l <> [] ->
+  let K := cls_event RN crit i in
+  let r0 := fresh RN K dt dur incl inpl in
+  let r := final K r0 (fwd_ops [] (map single l)) in
+  rwf r /\ rinit r = false /\ N (rrec r) = N (rrec r0) /\ stored_shape r = Some [] /\ rdt r = dt /\
+  all_ok (outputs K r0 (fwd_ops [] (map single l))) /\
+  rhist r = record_spec (fun m => event_closed crit i (map (fun o => (dt, o)) m)) (event_init RN i) (N (rrec r0)) l.
+Proof.
+  intros Hne. apply (record_of_closed (cls_event RN crit i)); [reflexivity| |exact Hne].
+  intros m Hm. cbn [kdecay cls_event].
+  pose proof (event_time_since_last crit i (map (fun o => (dt, o)) m)) as H. unfold event_run in H.
+  rewrite (fold_left_fixed_dt (fun d o s => Some (event_step crit i d o s))) in H.
+  transitivity (fold_left (fun (s : option (option R)) (o : R) => Some (event_step crit i dt o s)) m None); [reflexivity|].
+  destruct m; [congruence|exact H].
+Qed.
+
+(* ---- cumulative average: the arithmetic mean of the observations so far *)
+Lemma elem_fold_ca dt' decay (l : list R) : forall p c,
+  elem_fold RN (cls_ca RN) dt' decay c p l
+  = fst (fold_left (fun sc o => let c := (snd sc + 1)%Z in (Some (kfold (cls_ca RN) 0 0 c o (fst sc)), c)) l (p, c)).
+Proof. induction l as [|o tl IH]; intros p c; cbn [elem_fold fold_left]; [reflexivity|]. rewrite IH. reflexivity. Qed.
+Lemma elem_fold_ca_run dt' decay (l : list R) : elem_fold RN (cls_ca RN) dt' decay 0%Z None l = fst (ca_run l).
+Proof. exact (elem_fold_ca dt' decay l None 0%Z). Qed.
+Theorem ca_reducer_record (l : list R) : l <> [] ->
+  let K := cls_ca RN in
+  let r0 := fresh RN K dt dur incl inpl in
+  let r := final K r0 (fwd_ops [] (map single l)) in
+  rwf r /\ rinit r = false /\ N (rrec r) = N (rrec r0) /\ stored_shape r = Some [] /\ rdt r = dt /\
+  all_ok (outputs K r0 (fwd_ops [] (map single l))) /\
+  rhist r = record_spec (fun m => sum_list m / INR (length m)) 0 (N (rrec r0)) l.
+Proof.
+  intros Hne. cbn zeta.
+  destruct (fresh_run_record RN (cls_ca RN) dt dur incl inpl l Hne) as (Hw & Hi & HN & Hs & Hcfg & Hok & Hh).
+  destruct (fresh_facts RN (cls_ca RN) dt dur incl inpl) as (_ & _ & _ & _ & _ & _ & Hdt & Hdec).
+  split; [exact Hw|]. split; [exact Hi|]. split; [exact HN|]. split; [exact Hs|].
+  split; [destruct Hcfg as (c1 & _); exact (eq_trans c1 Hdt)|]. split; [exact Hok|].
+  etransitivity; [exact Hh|]. unfold record_spec. f_equal. f_equal. apply map_ext_in. intros k Hin. apply in_seq in Hin.
+  transitivity (orow (fst (ca_run (firstn (length l - k) l)))); [f_equal; apply elem_fold_ca_run|].
+  rewrite ca_is_mean.
+  destruct (firstn (length l - k) l) eqn:E; [|reflexivity].
+  apply (f_equal (@length _)) in E. rewrite firstn_length in E. cbn [length] in E. lia.
 Qed.
 End TraceReducers.
+
+(* ------------------------------------------------------------------ what the observers return *)
+Lemma nth_firstn_lt {X} (d : X) (l : list X) n j : (j < n)%nat -> nth j (firstn n l) d = nth j l d.
+Proof.
+  revert n j. induction l as [|x l IH]; intros n j Hj; [rewrite firstn_nil; reflexivity|].
+  destruct n as [|n]; [lia|]. destruct j as [|j]; [reflexivity|]. cbn. apply IH. lia.
+Qed.
+Lemma record_spec_nth {A Obs} (cf : list Obs -> A) fillv nrec (l : list Obs) k : (k < nrec)%nat ->
+  nth k (record_spec cf fillv nrec l) [] = if (k <? length l)%nat then [cf (firstn (length l - k) l)] else [fillv].
+Proof.
+  intros Hk. unfold record_spec. rewrite nth_firstn_lt by exact Hk.
+  destruct (Nat.ltb_spec k (length l)) as [Hlt|Hge].
+  - rewrite app_nth1 by (rewrite map_length, seq_length; exact Hlt).
+    rewrite (nth_map_seq (@rcast A) fillv) by exact Hlt. reflexivity.
+  - rewrite app_nth2 by (rewrite map_length, seq_length; exact Hge). rewrite map_length, seq_length.
+    rewrite (nth_indep _ [] [fillv]) by (rewrite repeat_length; lia). apply nth_repeat.
+Qed.
+
+Section Observers.
+(* For ANY reducer whose record is the closed-form record of a history l (the *_reducer_record theorems above
+   establish this hypothesis for every shipped class): *)
+Context {A Obs : Type}.
+Variable K : @rclass RN A Obs.
+Variable r : @reducer RN A.
+Variable cf : list Obs -> A.
+Variable l : list Obs.
+Hypothesis Hwf : rwf r.
+Hypothesis Hini : rinit r = false.
+Hypothesis Hshape : stored_shape r = Some [].
+Hypothesis Hne : l <> [].
+Hypothesis Hrec : rhist r = record_spec cf (kfill K) (N (rrec r)) l.
+
+Lemma Npos : (0 < N (rrec r))%nat.
+Proof. destruct Hwf as ((Hn & _) & _). exact Hn. Qed.
+Lemma len_pos : (0 < length l)%nat.
+Proof. destruct l; [congruence|cbn; lia]. Qed.
+Lemma hd_nth0 {X} (d : X) (m : list X) : hd d m = nth 0 m d.
+Proof. destruct m; reflexivity. Qed.
+
+(* peek / latest: the closed form of the whole history *)
+Theorem peek_closed : rd_peek RN r = ROk r (RObs [] [cf l]).
+Proof.
+  rewrite (peek_spec' RN r Hwf Npos), Hini, Hshape. f_equal. f_equal.
+  rewrite hd_nth0, Hrec, record_spec_nth by exact Npos.
+  pose proof len_pos as Hl. destruct (Nat.ltb_spec 0 (length l)) as [_|H]; [|lia].
+  rewrite Nat.sub_0_r, firstn_all. reflexivity.
+Qed.
+
+(* dump: the record newest first - entry k is the closed form of the history without its last k observations,
+   entries older than the first observation hold the fill value *)
+Theorem dump_closed :
+  exists rec', rd_dump RN r = ROk (set_rec r rec') (RRows [] (record_spec cf (kfill K) (N (rrec r)) l)) /\
+               hist rec' = rhist r.
+Proof.
+  destruct (dump_newest_first RN K r Hwf Npos Hini) as (rec' & Hd & _ & _ & _ & Hh & _).
+  exists rec'. rewrite Hd, Hshape, Hrec. split; [reflexivity|]. rewrite <- Hrec. exact Hh.
+Qed.
+
+(* view k steps back, on the grid: the value recorded then = the closed form of the history up to then *)
+Theorem view_grid_closed time tol (k : Z) :
+  0 < rdt r -> 0 <= tol < rdt r / 2 -> (0 <= k < Z.of_nat (N (rrec r)))%Z -> Rabs (IZR k * rdt r - time) <= tol ->
+  rd_view_scalar RN K r time tol
+  = ROk r (RObs [] (if (Z.to_nat k <? length l)%nat then [cf (firstn (length l - Z.to_nat k) l)] else [kfill K])).
+Proof.
+  intros Hdt Htol Hk Hg. rewrite (view_on_grid K r time tol k Hwf Hini Hdt Htol Hk Hg), Hshape, Hrec.
+  rewrite record_spec_nth by lia. reflexivity.
+Qed.
+
+(* view between two recorded steps: the reducer's interpolation of the closed forms of the two neighbouring
+   steps, sampled at the time elapsed since the earlier one *)
+Theorem view_offgrid_closed time tol :
+  0 < rdt r -> 0 <= tol -> 0 <= time <= rdt r * IZR (Z.of_nat (N (rrec r)) - 1) ->
+  (forall j : Z, tol < Rabs (IZR j * rdt r - time)) ->
+  let kf := Z.to_nat (Zfloor (time / rdt r)) in
+  let kc := S kf in
+  let entry k := if (k <? length l)%nat then cf (firstn (length l - k) l) else kfill K in
+  rd_view_scalar RN K r time tol
+  = ROk r (RObs [] [kinterp K (entry kc) (entry kf) (INR kc * rdt r - time) (rdt r)]).
+Proof.
+  intros Hdt Htol Hrange Hoff kf kc entry.
+  destruct (view_off_grid K r time tol Hwf Hini Hdt Htol Hrange Hoff) as (Hkf & Hkc & Hv).
+  rewrite Hv, Hshape, Hrec. f_equal. f_equal.
+  replace (Z.to_nat (Zfloor (time / rdt r) + 1)) with kc by (unfold kc, kf; lia).
+  fold kf. rewrite !record_spec_nth by (unfold kc, kf; lia).
+  assert (Ekc : IZR (Zfloor (time / rdt r) + 1) = INR kc).
+  { unfold kc, kf. rewrite INR_IZR_INZ. f_equal. lia. }
+  rewrite Ekc. unfold entry.
+  destruct (kc <? length l)%nat; destruct (kf <? length l)%nat; reflexivity.
+Qed.
+End Observers.
